@@ -2,7 +2,7 @@
    regexp + strconv parse, Base/Strconv.v and Base/Floats.v) against the decimal
    numerals of the specification (Spec/AssignSpec.v), for ALL strings. *)
 From Coq Require Import ZArith Bool String Ascii List Lia Floats.SpecFloat.
-From Verif Require Import Util Ints Strconv Floats Assign AssignSpec.
+From Verif Require Import Util Ints Strconv Floats AssignVal Assign AssignSpec.
 Import ListNotations.
 Local Open Scope Z_scope.
 
